@@ -56,7 +56,35 @@ class SeqHolder(State):
     n: int = 0
 
 
-CONTAINERS = ("list", "tuple", "dict", "state", "mstate", "qstate")
+class MapOrMissing(State):
+    """mapping alternative first, Missing second (like haiway's own ArgumentsTrace.kwargs)"""
+
+    kw: Mapping[str, Any] | Missing = MISSING
+    n: int = 0
+
+
+class Two(State):
+    first: Any | Missing = MISSING
+    second: Any | Missing = MISSING
+    third: int | Missing = MISSING
+
+
+CONTAINERS = ("list", "tuple", "dict", "state", "mstate", "qstate", "mlast", "two", "mapmiss")
+
+
+def walk(value, path=()):
+    """every (path, leaf) of a nested value: lists, tuples, mappings, State attributes"""
+    if isinstance(value, State):
+        for name in type(value).__ATTRIBUTES__:
+            yield from walk(getattr(value, name), (*path, f".{name}"))
+    elif isinstance(value, Mapping):
+        for k_, v_ in value.items():
+            yield from walk(v_, (*path, f"[{k_!r}]"))
+    elif isinstance(value, (list, tuple)):
+        for i_, v_ in enumerate(value):
+            yield from walk(v_, (*path, f"[{i_}]"))
+    else:
+        yield path, value
 
 
 class AlwaysEq:
@@ -103,6 +131,12 @@ def build(shape):
         return {"k": x, "o": 1}
     if c == "mstate":
         return MapHolder(m={"k": x, "o": 1}, n=1)
+    if c == "mlast":  # the value sits in the LAST item of the mapping
+        return MapHolder(m={"o": 1, "k": x}, n=1)
+    if c == "two":  # followed by further attributes that hold MISSING themselves
+        return Two(first=x)
+    if c == "mapmiss":  # x next to an attribute of type Mapping | Missing left out
+        return [x, MapOrMissing(n=1)]
     if c == "qstate":
         return SeqHolder(s=[x, 1], n=1)
     return Holder(v=x, n=1)
@@ -116,8 +150,12 @@ def leaf(shape, value):
             value = value[0]
         elif c == "dict":
             value = value["k"]
-        elif c == "mstate":
+        elif c in ("mstate", "mlast"):
             value = value.m["k"]
+        elif c == "two":
+            value = value.first
+        elif c == "mapmiss":
+            value = value[0]
         elif c == "qstate":
             value = value.s[0]
         else:
@@ -127,7 +165,7 @@ def leaf(shape, value):
 
 def has_state(shape) -> bool:
     while shape != "M":
-        if shape[0] in ("state", "mstate", "qstate"):
+        if shape[0] in ("state", "mstate", "qstate", "mlast", "two", "mapmiss"):
             return True
         shape = shape[1]
     return False
@@ -206,6 +244,13 @@ def execute(program, ch: Chooser) -> Result:  # noqa: C901, PLR0912, PLR0915
             except Exception as exc:  # noqa: BLE001
                 viols.append(viol("obtain", f"{how}-shape-changed", "same shape", repr(exc)[:100]))
             else:
+                # every position that held MISSING in the original holds MISSING in the result
+                if how != "call":
+                    before = {p: v for p, v in walk(original)}
+                    after = dict(walk(result))
+                    lost = [("".join(p), type(after.get(p)).__name__) for p, v in before.items() if v is MISSING and after.get(p, "absent") is not MISSING]
+                    if lost and got is MISSING:
+                        viols.append(viol("singleton", f"{how}/other-position", "MISSING wherever the original holds it", lost[:3]))
                 if got is not MISSING:
                     viols.append(
                         viol(
@@ -243,6 +288,12 @@ def execute(program, ch: Chooser) -> Result:  # noqa: C901, PLR0912, PLR0915
             ("deepcopy", lambda: copy.deepcopy(Holder(n=2))),
             ("updated", lambda: Holder(n=2).updated(n=3)),
             ("nested-deepcopy", lambda: copy.deepcopy(Holder(v=Holder(n=4), n=2)).v),
+            # an attribute typed `Mapping | Missing` (mapping first) that is left out / given MISSING
+            ("mapping-or-missing/new", lambda: Holder(v=MapOrMissing(n=2).kw)),
+            ("mapping-or-missing/explicit", lambda: Holder(v=MapOrMissing(kw=MISSING).kw)),
+            ("mapping-or-missing/copy", lambda: Holder(v=copy.copy(MapOrMissing(n=2)).kw)),
+            ("mapping-or-missing/updated", lambda: Holder(v=MapOrMissing(kw={"a": 1}).updated(kw=MISSING).kw)),
+            ("int-or-missing/new", lambda: Holder(v=Two().third)),
         ):
             steps += 1
             try:
